@@ -248,6 +248,12 @@ class Builtins:
                 t = item.text()
                 if any(isinstance(a, Lit) and t in a for a in container.atoms):
                     return True
+                from . import tokrx
+                if tokrx.is_tok_template(container) and t:
+                    try:
+                        return tokrx.t_contains(container, t)
+                    except tokrx.Undecided:
+                        pass
                 h = container.single_hole()
                 if h is not None and h.oracle is not None:
                     r = h.oracle("contains", t)
@@ -705,6 +711,15 @@ class Builtins:
             except (ValueError, IndexError) as exc:
                 I.raise_exc(type(exc).__name__, [Str.lit(str(exc))], node, fr)
             return I.lift(r)
+        from . import tokrx
+        if tokrx.is_tok_template(s) and name in ("split", "replace") and not kwargs:
+            try:
+                if name == "split" and len(args) == 1 and isinstance(args[0], Str) and args[0].is_concrete():
+                    return ListV(list(tokrx.t_split(s, args[0].text())))
+                if name == "replace" and len(args) == 2 and all(isinstance(a, Str) and (a.is_concrete() or tokrx.is_tok_template(a)) for a in args):
+                    return tokrx.t_replace(s, args[0], args[1])      # type: ignore[arg-type]
+            except tokrx.Undecided:
+                pass
         h = s.single_hole()
         argtxt = ",".join(I.show(a) for a in args)
         if name in ("startswith", "endswith"):
@@ -723,6 +738,10 @@ class Builtins:
                     r = h.oracle(name, t)
                     if r is not None:
                         return I.lift(r)
+                if isinstance(edge, Hole) and edge.kind == "tok" and t:
+                    # the template begins (ends) with a token: a character foreign to its alphabet cannot be there
+                    if (t[0] if name == "startswith" else t[-1]) not in edge.meta.get("alphabet", ""):
+                        return FALSE
                 key = (name, s.render(), t)
                 return I.lift(I.run.assume(key, f"{s.render()}.{name}({t!r})"))
             return I.lift(I.run.assume((name, s.render(), argtxt), f"{s.render()}.{name}({argtxt})"))
@@ -1310,6 +1329,28 @@ class Builtins:
         if meta.get("match_or_none"):
             pat = args[0] if args else kwargs.get("pattern")
             subj = args[1] if len(args) > 1 else kwargs.get("string")
+            from . import tokrx
+            if isinstance(pat, Str) and pat.is_concrete() and tokrx.is_tok_template(subj) and len(args) + len(kwargs) == 2:
+                # a constant regex applied to a token template: matched exactly when every step is decidable
+                try:
+                    fn = name.split(".")[-1]
+                    syms = tokrx.symbols(subj)
+                    if fn == "search":
+                        res = tokrx.search_groups(pat.text(), syms)
+                    else:
+                        res = tokrx.match_groups(pat.text(), syms, full=(fn == "fullmatch"))
+                    if res is None:
+                        return NONE
+                    st, en, caps = res
+                    ng = tokrx.n_groups(pat.text())
+                    groups = [tokrx.template(syms[st:en])] + [
+                        (tokrx.template(syms[caps[k][0]:caps[k][1]]) if k in caps else NONE) for k in range(1, ng + 1)]
+                    m.update({"truthy": True, "not_none": True, "group0": groups[0], "template_groups": groups,
+                              "span": (st, en), "pattern_text": pat.text(), "subject": subj})
+                    m.pop("match_or_none", None)
+                    return Unknown(I.run.new_tag(f"{name}(...)"), m)
+                except tokrx.Undecided:
+                    pass
             if isinstance(pat, Str) and pat.is_concrete() and isinstance(subj, Str) and subj.is_concrete() and \
                     len(args) + len(kwargs) <= 3:
                 # a constant regex applied to a constant string: evaluate the constant
@@ -1421,6 +1462,12 @@ class Builtins:
         subj = args[1] if len(args) > 1 else kwargs.get("string")
         I.run.event("extern_call", name="re.split", args=args, kwargs=kwargs, node=node, recv=None,
                     func=(fr.func.qualname if fr and fr.func else ""), module=(fr.module if fr else ""))
+        from . import tokrx
+        if isinstance(pat, Str) and pat.is_concrete() and tokrx.is_tok_template(subj) and len(args) + len(kwargs) == 2:
+            try:
+                return ListV(list(tokrx.split(pat.text(), subj)))     # type: ignore[arg-type]
+            except tokrx.Undecided:
+                pass
         ptxt = pat.text() if isinstance(pat, Str) and pat.is_concrete() else I.expr_of(pat)
         src = f"re.split({ptxt!r},{I.expr_of(subj)})"
         return AbsList(Str((Hole(src + "[*]", "piece", None, meta={"resplit_pattern": ptxt, "subject": subj}),)),
